@@ -6,7 +6,7 @@ class Prop:
     id = "C27"
     level = "exploration"
     engine = "TH (controlled threads: baton passing, line-level pre-emption points, simulated locks)"
-    quick_runs = 12000
+    quick_runs = 30000
     thorough_runs = 400000
     quick_budget = 70.0
     chunk = 100
